@@ -154,6 +154,16 @@ CHECKS = {
         ref="DESIGN.md 6/C11",
         note=NOTE + "refine_ model hand-written, tied by exact differential comparison (CSR edge order re-implemented).",
         technique="Lean 4 proof (ring identities per parent triangle, half-edge counting by induction) tied by exact differential driver"),
+    "C15": dict(
+        text="Theorems for every mesh and every (multi-column, rectangular) function: map_tfunc_to_vfunc conserves column totals, the weighted "
+             "variant integrates against triangle areas and maps 1 to vertex_areas; map_vfunc_to_tfunc is the corner mean and maps constants "
+             "to constants; the smoothing operator has weights 1/deg on the edge neighbours (the area factors cancel): non-negative, rows sum "
+             "to one, linear, fixes constants, stays in [min f, max f], smooth(f,n) is n applications (n=0 applies once), smooth_ replaces "
+             "only the vertices. The clause 'map_tfunc_to_vfunc maps constants to constants' is FALSE (recorded finding F9): proved "
+             "t2v_const_partial (c*incidence/3), t2v_const_iff and a concrete counter-example. All three routines compared with the model.",
+        ref="DESIGN.md 6/C15",
+        note=NOTE + "map_tfunc_to_vfunc / smooth_vfunc are tied by the differential check only (np.add.at and sparse products are not traceable).",
+        technique="Lean 4 proof (column-wise reduction to scalar sums, convexity of the row-stochastic operator, induction on iterations) tied by differential driver"),
 }
 
 NOT_YET = {}
